@@ -63,6 +63,30 @@ def check(ctx):
             o1.count()
             o1.sample({'site': f'{P.rel(s.mod.path)}:{s.line}', 'event_type': sched_event_type(s.node)})
 
+    # requests registered before the simulation starts wait for the first check, which initialize() must ask for (their registration could not:
+    # there was no environment yet -- F11)
+    gi = ctx.graph(RM, 'initialize', opaque=('_schedule_check_pending_requesters',))
+    sched_i = {n.id for n in gi.nodes.values() if any(call_attr(c_) in ('_schedule_check_pending_requesters', '_check_pending_requests') or
+                                                      (call_attr(c_) == 'schedule_event' and sched_action_name(c_) == '_check_pending_requests') for c_ in calls_at(gi, n))}
+    o1.count()
+    NONEMPTY_T = ('len(self._waiting_requests)>0', 'self._waiting_requests', 'len(self._waiting_requests)!=0', 'len(self._waiting_requests)>=1', '0<len(self._waiting_requests)', 'len(self._waiting_requests)')
+    NONEMPTY_F = ('len(self._waiting_requests)==0', 'notself._waiting_requests', 'len(self._waiting_requests)<=0', 'len(self._waiting_requests)<1')
+    empty_edges = set()
+    for n in gi.nodes.values():
+        if n.kind == 'cond':
+            t = dv.canon_text(n.ast, n.frame)
+            if t in NONEMPTY_T:
+                empty_edges.add((n.id, 'F'))
+            elif t in NONEMPTY_F:
+                empty_edges.add((n.id, 'T'))
+    fi = P.method(RM, 'initialize')[1]
+    reach_i = gi.reach_edges([gi.entry], cut_edges=empty_edges | {(i_, l_) for i_ in sched_i for l_, _ in gi.succ[i_]})
+    if not sched_i or gi.exit in reach_i:
+        o1.fail(P, 'ResourceManager.initialize', 'if len(self._waiting_requests) > 0: self._schedule_check_pending_requesters()',
+                'initialize() can return with requests waiting and no check of them scheduled: a request registered before the simulation starts is then served only when some '
+                'unrelated pool change happens', file=RM.mod.path, line=fi.lineno)
+    else:
+        o1.witness('initialize-checks-early-requests')
     o3 = Ob('C10.3', 'K2', 'the callback of a waiting entry runs only on the true edge of the feasibility test of that entry, as callback(manager, request of that entry), '
                            'once, followed by the removal of that entry')
     obs.append(o3)
